@@ -43,7 +43,7 @@ EXPECTED_PROBES = ["probe_frame_fragmented", "probe_frames_coalesced", "probe_un
                    "probe_remote_fn_definition", "probe_burst", "probe_big_response", "probe_nested_list", "probe_dictionary_value", "probe_server_error_last",
                    "probe_same_text_after_remote_set", "probe_unencodable_request_in_burst", "probe_equal_text_of_different_kinds",
                    "probe_second_connection_reads_during_a_call", "probe_response_above_16MiB",
-                   "probe_remote_definition_of_a_function_used_locally_first", "probe_chain_backend", "probe_unbound_symbol"]
+                   "probe_remote_definition_of_a_function_used_locally_first", "probe_chain_backend", "probe_unbound_symbol", "net_stall"]
 WALL_CAP = {"quick": 400, "thorough": 3600}
 EXHAUSTIVE_NOTE = "configuration 'cuts' enumerates every (a<=b) split of the concatenated frames into three reads exhaustively for each generated case"
 
@@ -91,6 +91,12 @@ def scenario(ch, cfg):
     env = IpcEnv(ch, max_steps=60000, peer="real")
     w, net = env.w, env.net
     stats = w.stats
+    if ch.draw(4, "stall") == 0:
+        # the byte stream pauses somewhere inside a frame for a while and then goes on ("however the byte stream is split
+        # into or merged across network reads" has no clock in it: a slow path delivers the same messages)
+        from sim.ipcenv import CUT_CLASSES
+        env.cut_plan = {"direction": ch.draw(2, "stall.dir"), "frame": 1 + ch.draw(6, "stall.frame"), "cls": ch.pick(CUT_CLASSES[1:7], "stall.cls"),
+                        "kind": "stall", "cid": 0, "stall_for": ch.pick([0.4, 1.5, 2.5, 8.0, 40.0], "stall.for")}
     twin = KlongInterpreter()
     nops = 3 + ch.draw(10, "nops")
     # function definitions available on the server (and the twin) from the start
